@@ -505,11 +505,11 @@ func (l *Lifter) bwBlock(stmts []ast.Stmt, cur *cursor, top bool) []Item {
 				continue
 			}
 			// if p != nil { tag; body [; return at] }
-			if p, ok := nilTest(x.Cond); ok && x.Else == nil && x.Init == nil {
+			if operand, ok := l.optOperand(x.Cond); ok && x.Else == nil && x.Init == nil {
 				l.bwClosed(cur, s.Pos(), "before optional member")
 				inner := &cursor{}
 				body := l.bwBlock(x.Body.List, inner, false)
-				it := Item{Kind: KOpt, Operand: l.op(p), Pos: s.Pos(), Tag: -1}
+				it := Item{Kind: KOpt, Operand: operand, Pos: s.Pos(), Tag: -1}
 				if len(body) > 0 && body[0].Kind == KConstByte {
 					it.Tag = body[0].Tag
 					body = body[1:]
@@ -550,6 +550,22 @@ func (l *Lifter) bwBlock(stmts []ast.Stmt, cur *cursor, top bool) []Item {
 		items = append(items, l.unknown(s))
 	}
 	return items
+}
+
+// optOperand reads the guard of an optional member: `p != nil` is the member p
+// being set; `p != nil && extra` is a member that is also left out when extra
+// is false, and the operand says so (the wire format transmits every member
+// that is set, so this differs from the spec's OPT(p) in every comparison).
+func (l *Lifter) optOperand(cond ast.Expr) (string, bool) {
+	if p, ok := nilTest(cond); ok {
+		return l.op(p), true
+	}
+	if b, ok := unparen(cond).(*ast.BinaryExpr); ok && b.Op == token.LAND {
+		if p, ok := nilTest(b.X); ok {
+			return l.op(p) + " && " + l.rename(Canon(b.Y)), true
+		}
+	}
+	return "", false
 }
 
 // nilTest matches `p != nil` and returns p.
@@ -618,6 +634,22 @@ func (l *Lifter) swBlock(stmts []ast.Stmt, top bool) []Item {
 				continue
 			}
 		case *ast.AssignStmt:
+			// _, err = w.Write(...): the same write; err is a copy of what this
+			// one call latched (returning it is judged where it is returned)
+			if len(x.Lhs) == 2 && len(x.Rhs) == 1 && l.isIdent(x.Lhs[0], "_") && l.isIdent(x.Lhs[1], "err") {
+				if recv, c, ok := methodCall(x.Rhs[0], "Write"); ok && l.isIdent(recv, "w") && len(c.Args) == 1 {
+					arg := unparen(c.Args[0])
+					if cl, ok := arg.(*ast.CompositeLit); ok && len(cl.Elts) == 1 {
+						if n, ok := intLit(cl.Elts[0]); ok {
+							items = append(items, Item{Kind: KConstByte, Tag: n, Pos: s.Pos()})
+							continue
+						}
+					}
+					inner, _ := l.stripConv(arg)
+					items = append(items, Item{Kind: KRaw, Operand: l.op(inner), Pos: s.Pos()})
+					continue
+				}
+			}
 			// err = (x).EncodeBebop(w) ; if err != nil { return err }
 			if len(x.Lhs) == 1 && len(x.Rhs) == 1 && x.Tok == token.ASSIGN && l.isIdent(x.Lhs[0], "err") {
 				if recv, c, ok := methodCall(x.Rhs[0], "EncodeBebop"); ok && len(c.Args) == 1 && l.isIdent(c.Args[0], "w") {
@@ -651,9 +683,9 @@ func (l *Lifter) swBlock(stmts []ast.Stmt, top bool) []Item {
 				items = append(items, it)
 				continue
 			}
-			if p, ok := nilTest(x.Cond); ok && x.Else == nil && x.Init == nil {
+			if operand, ok := l.optOperand(x.Cond); ok && x.Else == nil && x.Init == nil {
 				body := l.swBlock(x.Body.List, false)
-				it := Item{Kind: KOpt, Operand: l.op(p), Pos: s.Pos(), Tag: -1}
+				it := Item{Kind: KOpt, Operand: operand, Pos: s.Pos(), Tag: -1}
 				if len(body) > 0 && body[0].Kind == KConstByte {
 					it.Tag = body[0].Tag
 					body = body[1:]
@@ -770,9 +802,9 @@ func (l *Lifter) szBlock(stmts []ast.Stmt, top bool) []SzNode {
 			out = append(out, SzNode{Loop: &SzLoop{Operand: l.op(x.X), Body: body}, Pos: s.Pos()})
 			continue
 		case *ast.IfStmt:
-			if p, ok := nilTest(x.Cond); ok && x.Else == nil && x.Init == nil {
+			if operand, ok := l.optOperand(x.Cond); ok && x.Else == nil && x.Init == nil {
 				body := l.szBlock(x.Body.List, false)
-				o := &SzOpt{Operand: l.op(p)}
+				o := &SzOpt{Operand: operand}
 				if n := len(body); n > 0 && body[n-1].Unknown == "$return" {
 					o.Returns = true
 					body = body[:n-1]
